@@ -189,6 +189,9 @@ class C17(Property):
 
     def _conversion(self, out, rnd, a, b):
         x = np.array([rnd.uniform(-50, 50) for _ in range(4)])
+        if rnd.random() < 0.25:
+            x = np.array([rnd.randint(-2500, 2500) for _ in range(4)])  # integer payload: the converted result is not integral in general
+            out.count("integer_payloads")
         compat = o_compatible(a, b)
         equiv, _ = o_equivalent(a, b)
         exp = o_convert(x, a, b) if compat else None
@@ -249,7 +252,7 @@ class C17(Property):
             out.viol("wrong_conversion", f"{how}: {x.tolist()} {a!r} -> {b!r} gave {got.tolist()}, dimensional analysis {exp.tolist()}", a=a, b=b)
 
     def coverage_gaps(self, counters, tier):
-        need = ["compatible_queries", "equivalent_queries", "conversion_link", "conversion_prepare", "conversion_to_units",
+        need = ["integer_payloads", "compatible_queries", "equivalent_queries", "conversion_link", "conversion_prepare", "conversion_to_units",
                 "incompatible_refused", "equivalent_relabels", "true_conversions"]
         return [f"{k} never observed" for k in need if not counters.get(k)]
 
